@@ -114,6 +114,31 @@ func (a *SimAction) Execute(ctx context.Context, _ chain.Rules, mu state.Mutable
 			}
 		case "fail":
 			return nil, errSimFail
+		// try* ops swallow the error (an action is free to probe and carry on): what they
+		// observed is recorded in the output, so a denied access that later succeeds is visible
+		case "tryget":
+			v, err := mu.GetValue(ctx, op.Key)
+			switch {
+			case errors.Is(err, database.ErrNotFound):
+				out = append(out, []byte("<absent>;")...)
+			case err != nil:
+				out = append(out, []byte("<denied>;")...)
+			default:
+				out = append(out, v...)
+				out = append(out, ';')
+			}
+		case "tryput":
+			if err := mu.Insert(ctx, op.Key, op.Val); err != nil {
+				out = append(out, []byte("<put-denied>;")...)
+			} else {
+				out = append(out, []byte("<put-ok>;")...)
+			}
+		case "trydel":
+			if err := mu.Remove(ctx, op.Key); err != nil {
+				out = append(out, []byte("<del-denied>;")...)
+			} else {
+				out = append(out, []byte("<del-ok>;")...)
+			}
 		}
 	}
 	return out, nil
